@@ -28,6 +28,9 @@ type CaseC18 struct {
 	Target   int      `json:"target"`
 	ReleaseBefore bool `json:"release_before"` // parked fetches are released before (true) or after the close call
 	MidWrite bool     `json:"mid_write"`      // a writer goroutine keeps writing while the close happens
+	// LateHeads: after the close the author writes new entries and their heads are handed to the closed
+	// store (Sync after close) while its fetches would park: nothing may be left running for them
+	LateHeads bool `json:"late_heads,omitempty"`
 }
 
 func genC18(rt *rapid.T) CaseC18 {
@@ -37,6 +40,7 @@ func genC18(rt *rapid.T) CaseC18 {
 		Target:        rapid.IntRange(0, n-1).Draw(rt, "target"),
 		ReleaseBefore: rapid.Bool().Draw(rt, "releaseBefore"),
 		MidWrite:      rapid.Bool().Draw(rt, "midWrite"),
+		LateHeads:     rapid.Bool().Draw(rt, "lateHeads"),
 	}
 	for i := 0; i < n; i++ {
 		c.Types = append(c.Types, rapid.SampledFrom([]string{"eventlog", "keyvalue", "docstore"}).Draw(rt, "type"))
@@ -323,24 +327,6 @@ func execC18(c CaseC18) *Outcome {
 	if instanceClosed {
 		closedStores = seq(n)
 	}
-	for _, d := range closedStores {
-		s := ss[d]
-		ops := map[string]func(){
-			"write after close":            func() { _, _ = writeReturningHash(ctx, s, c.Types[d], 0, 1, 9000) },
-			"view after close":             func() { _, _ = viewOf(s, c.Types[d]) },
-			"Load after close":             func() { _ = s.Load(ctx, -1) },
-			"Sync after close":             func() { hs, _ := cloneHeads(world.Heads(as[d])); _ = s.Sync(ctx, hs) },
-			"LoadFromSnapshot after close": func() { _ = s.LoadFromSnapshot(ctx) },
-			"SaveSnapshot after close":     func() { _, _ = basestore.SaveSnapshot(ctx, s) },
-			"ReplicationStatus after close": func() { _ = s.ReplicationStatus().GetProgress() },
-			"Close after close":            func() { _ = s.Close() },
-		}
-		for _, name := range sortedKeys(ops) {
-			if err := guarded(name, ops[name]); err != nil {
-				return fail("%s (%s), database %d: %v", c.Action, summaryC18(c), d, err)
-			}
-		}
-	}
 	if instanceClosed {
 		ops := map[string]func(){
 			"Open on a closed instance":             func() { _, _ = db0.Open(ctx, addrs[0], &orbitdb.CreateDBOptions{}) },
@@ -354,6 +340,41 @@ func execC18(c CaseC18) *Outcome {
 		}
 	}
 
+	lateGate := false
+	for _, d := range closedStores {
+		s := ss[d]
+		d := d
+		if c.LateHeads {
+			for k := 0; k < 2; k++ {
+				if _, err := writeReturningHash(ctx, as[d], c.Types[d], 2, 3, 6000+10*d+k); err != nil {
+					return fail("harness: late author write: %v", err)
+				}
+			}
+		}
+		ops := map[string]func(){
+			"write after close":            func() { _, _ = writeReturningHash(ctx, s, c.Types[d], 0, 1, 9000) },
+			"view after close":             func() { _, _ = viewOf(s, c.Types[d]) },
+			"Load after close":             func() { _ = s.Load(ctx, -1) },
+			"Sync after close": func() {
+				hs, _ := cloneHeads(world.Heads(as[d]))
+				if c.LateHeads {
+					// heads the closed store has never seen, and every fetch of this peer parks from here on
+					p0.SetGate(true)
+					lateGate = true
+				}
+				_ = s.Sync(ctx, hs)
+			},
+			"LoadFromSnapshot after close": func() { _ = s.LoadFromSnapshot(ctx) },
+			"SaveSnapshot after close":     func() { _, _ = basestore.SaveSnapshot(ctx, s) },
+			"ReplicationStatus after close": func() { _ = s.ReplicationStatus().GetProgress() },
+			"Close after close":            func() { _ = s.Close() },
+		}
+		for _, name := range sortedKeys(ops) {
+			if err := guarded(name, ops[name]); err != nil {
+				return fail("%s (%s), database %d: %v", c.Action, summaryC18(c), d, err)
+			}
+		}
+	}
 	// siblings of a closed/dropped store keep working
 	if !instanceClosed {
 		for d := 0; d < n; d++ {
@@ -393,6 +414,10 @@ func execC18(c CaseC18) *Outcome {
 	}, 8*time.Second) {
 		l := leftOfClosed(left, p1)
 		return fail("%s (%s): %d goroutine(s) started by go-orbit-db are still alive after the instance was closed, e.g.:\n%s", c.Action, summaryC18(c), len(l), clipStack(l[0].Stack))
+	}
+
+	if lateGate {
+		p0.SetGate(false)
 	}
 
 	// reopen from the directory
@@ -444,6 +469,9 @@ func execC18(c CaseC18) *Outcome {
 	}
 	if c.MidWrite {
 		o.Labels = append(o.Labels, "closed-mid-write")
+	}
+	if lateGate {
+		o.Labels = append(o.Labels, "new-heads-handed-to-the-closed-store")
 	}
 	return o
 }
